@@ -121,6 +121,7 @@ func TestVerifC19(t *testing.T) {
 		{"self-signed", vrt.NewLeaf(dir, vrt.LeafOpts{Name: "client-selfsigned", EKU: both}), false},
 		{"other-ca", vrt.NewLeaf(dir, vrt.LeafOpts{Name: "client-otherca", Signer: ca2, EKU: both}), false},
 		{"expired", vrt.NewLeaf(dir, vrt.LeafOpts{Name: "client-expired", Signer: ca1, EKU: both, NotBefore: time.Now().Add(-48 * time.Hour), NotAfter: time.Now().Add(-24 * time.Hour)}), false},
+		{"expired-30s-ago", vrt.NewLeaf(dir, vrt.LeafOpts{Name: "client-just-expired", Signer: ca1, EKU: both, NotBefore: time.Now().Add(-48 * time.Hour), NotAfter: time.Now().Add(-30 * time.Second)}), false},
 		{"not-yet-valid", vrt.NewLeaf(dir, vrt.LeafOpts{Name: "client-future", Signer: ca1, EKU: both, NotBefore: time.Now().Add(24 * time.Hour), NotAfter: time.Now().Add(48 * time.Hour)}), false},
 		{"wrong-usage(server-auth only)", vrt.NewLeaf(dir, vrt.LeafOpts{Name: "client-wrongusage", Signer: ca1, EKU: []x509.ExtKeyUsage{x509.ExtKeyUsageServerAuth}}), false},
 		{"none", nil, false},
@@ -134,6 +135,8 @@ func TestVerifC19(t *testing.T) {
 		{cred{"self-signed", vrt.NewLeaf(dir, vrt.LeafOpts{Name: "server-selfsigned", DNS: []string{serverName}, EKU: both}), false}, true},
 		{cred{"other-ca", vrt.NewLeaf(dir, vrt.LeafOpts{Name: "server-otherca", Signer: ca2, DNS: []string{serverName}, EKU: both}), false}, true},
 		{cred{"expired", vrt.NewLeaf(dir, vrt.LeafOpts{Name: "server-expired", Signer: ca1, DNS: []string{serverName}, EKU: both, NotBefore: time.Now().Add(-48 * time.Hour), NotAfter: time.Now().Add(-24 * time.Hour)}), false}, true},
+		{cred{"expired-30s-ago", vrt.NewLeaf(dir, vrt.LeafOpts{Name: "server-just-expired", Signer: ca1, DNS: []string{serverName}, EKU: both, NotBefore: time.Now().Add(-48 * time.Hour), NotAfter: time.Now().Add(-30 * time.Second)}), false}, true},
+		{cred{"valid-in-10-minutes", vrt.NewLeaf(dir, vrt.LeafOpts{Name: "server-soon-valid", Signer: ca1, DNS: []string{serverName}, EKU: both, NotBefore: time.Now().Add(10 * time.Minute), NotAfter: time.Now().Add(48 * time.Hour)}), false}, true},
 		{cred{"wrong-usage(client-auth only)", vrt.NewLeaf(dir, vrt.LeafOpts{Name: "server-wrongusage", Signer: ca1, DNS: []string{serverName}, EKU: []x509.ExtKeyUsage{x509.ExtKeyUsageClientAuth}}), false}, true},
 	}
 	var evals, nontrivial int64
@@ -317,6 +320,32 @@ func TestVerifC19(t *testing.T) {
 			res.Violate("tls/listener-without-configured-ca-admits-peer/"+c.name, fmt.Sprintf("server TLS block {certificate, key, no remoteCAPath, skipCAVerification not set} is accepted (ClientAuth=%v, ClientCAs set=%v) and the listener admits a client %s", cfg.ClientAuth, cfg.ClientCAs != nil, c.name), map[string]any{"role": "server", "shape": "no-ca-path", "peer": c.name})
 		}
 	}
+	// the CA file goes away after the listener was configured (a rotation in progress, a remount): the listener keeps
+	// admitting exactly the peers of the configured CA - in particular it does not fall back to the host's system store
+	rotating := filepath.Join(dir, "rotating-ca.pem")
+	if b, err := os.ReadFile(ca1.Path); err == nil {
+		_ = os.WriteFile(rotating, b, 0o600)
+	}
+	if cfg, err := GetServerTLSConfig(TLSConfig{CertificatePath: proxyCert.CertPath, KeyPath: proxyCert.KeyPath, RemoteCAPath: rotating}, logger); err == nil && cfg != nil {
+		_ = os.Rename(rotating, rotating+".gone")
+		for _, c := range []struct {
+			name string
+			leaf *vrt.Leaf
+			want bool
+		}{{"signed-by-a-CA-of-the-host-system-store", sysClient, false}, {"self-signed", clientCreds[1].leaf, false}, {"other-ca", clientCreds[2].leaf, false}} {
+			peer := &tls.Config{RootCAs: x509.NewCertPool(), ServerName: serverName}
+			peer.RootCAs.AddCert(ca1.Cert)
+			leaf := c.leaf.TLSCert
+			peer.GetClientCertificate = func(*tls.CertificateRequestInfo) (*tls.Certificate, error) { return &leaf, nil }
+			ok, _, _ := vfHandshake(cfg, peer)
+			evals++
+			nontrivial++
+			if ok != c.want {
+				res.Violate("tls/listener-admits-unauthenticated-client-while-ca-file-is-gone/"+c.name, fmt.Sprintf("listener configured with a readable CA file; the file is then removed; a client %s is admitted", c.name), map[string]any{"role": "server", "shape": "ca-file-removed-after-start", "peer": c.name})
+			}
+		}
+		_ = os.Rename(rotating+".gone", rotating)
+	}
 	// two configurations with different CAs in one process must not influence each other
 	other, err := GetClientTLSConfig(TLSConfig{RemoteCAPath: ca2.Path, CAServerName: serverName})
 	if err == nil {
@@ -336,7 +365,7 @@ func TestVerifC19(t *testing.T) {
 	}
 	res.Set("evaluations", evals)
 	res.Set("distinct_nontrivial", nontrivial)
-	res.Set("rule", "server role: GetServerTLSConfig{cert,key,CA} x {verification on, skipCAVerification} x client credential {valid chain, self-signed, other CA, expired, not yet valid, wrong usage, none} x {normal peer, peer that sends its certificate regardless of the CA hint} x {TLS1.3, TLS1.2}; client role: GetClientTLSConfig{CA, server name} x {verification on, skip} x {own certificate or not} x server credential {valid, valid chain wrong name, self-signed, other CA, expired, wrong usage} x {TLS1.3, TLS1.2}; CA bundle variants at config time (leaf only, empty, missing file, a self-signed non-CA certificate asserting keyCertSign); a listener with its own certificate, verification on and no CA path; the host's system trust store holds one throw-away CA so that any fall-back to it is observable; two configs with different CAs in one process. Success = handshake and one application byte in each direction on both ends. non-trivial = cases that must be refused")
+	res.Set("rule", "server role: GetServerTLSConfig{cert,key,CA} x {verification on, skipCAVerification} x client credential {valid chain, self-signed, other CA, expired a day ago, expired 30 s ago, not yet valid, wrong usage, none} x {normal peer, peer that sends its certificate regardless of the CA hint} x {TLS1.3, TLS1.2}; client role: GetClientTLSConfig{CA, server name} x {verification on, skip} x {own certificate or not} x server credential {valid, valid chain wrong name, self-signed, other CA, expired, wrong usage} x {TLS1.3, TLS1.2}; CA bundle variants at config time (leaf only, empty, missing file, a self-signed non-CA certificate asserting keyCertSign); a listener with its own certificate, verification on and no CA path; the host's system trust store holds one throw-away CA so that any fall-back to it is observable; two configs with different CAs in one process. Success = handshake and one application byte in each direction on both ends. non-trivial = cases that must be refused")
 	res.Set("exhaustive", true)
 	res.Sample(map[string]any{"role": "server", "peer": "self-signed", "skip_verification": false, "peer_insists": true})
 	res.Sample(map[string]any{"role": "client", "peer": "valid-chain-wrong-name", "skip_verification": false})
